@@ -122,7 +122,7 @@ static Case gen_c18(Chooser& ch) {
   return c;
 }
 
-// ---------------------------------------------------------------- C11: give-back at quiescence, no creep over repetitions
+// ---------------------------------------------------------------- footprint measurement (C07, C11)
 struct Footprint { size_t mapped = 0, regions = 0, resident = 0, big_outside = 0, small_outside = 0, arena_resident = 0; uintptr_t first_big = 0; size_t first_big_len = 0; };
 static Footprint measure_footprint() {
   Footprint f; static vf_region_t regs[8192]; size_t n = vf_regions(regs, 8192);
@@ -141,6 +141,75 @@ static Footprint measure_footprint() {
   return f;
 }
 
+
+// ---------------------------------------------------------------- C07: OS refusals
+static void c07_event(int kind, void* addr, size_t len, int, int failed) {
+  Exec* e = g_exec; if (!e) return;
+  if (failed) { e->count(C_FAULT_HIT); if (kind == VF_UNMAP) e->refused_unmaps.push_back({ (uintptr_t)addr, len }); }
+}
+static int fault_kind_of(const std::string& k) { return k == "map" ? VF_MAP : k == "unmap" ? VF_UNMAP : k == "commit" ? VF_COMMIT : k == "protect" ? VF_PROTECT : k == "advise" ? VF_ADVISE : -1; }
+
+void Exec::op_c07(const Op& op) {
+  const std::string& nm = op.name;
+  if (nm == "fault") { int k = fault_kind_of(op.str("kind")); if (k < 0) return;
+#if defined(VF_SECURE_BUILD)
+    // known finding F12 (secure build): a refused *unprotect* of a guard page (mprotect(RW) of one OS page when a segment is freed) leaves an
+    // inaccessible page inside recycled memory and a later allocation crashes. Excluded by construction: one-page mprotect(RW) calls are not fault positions.
+    if (!known_f12_off) vf_set_commit_min_len(4096);
+#endif
+    vf_arm(k, (long)op.num("k"), (int)op.num("pers")); allow_null = true; ever_faulted = true; return; }
+  if (nm == "recover") {
+    vf_disarm(); allow_null = false;
+    r.counters[C_OS_MAP] = (uint64_t)vf_count(VF_MAP); r.counters[C_OS_UNMAP] = (uint64_t)vf_count(VF_UNMAP); r.counters[C_OS_COMMIT] = (uint64_t)vf_count(VF_COMMIT);
+    r.counters[C_OS_PROTECT] = (uint64_t)vf_count(VF_PROTECT); r.counters[C_OS_ADVISE] = (uint64_t)vf_count(VF_ADVISE); os_counts_recorded = true;
+    verify_all("before-recover", false);
+    // recovery workload: everything must work again
+    static const size_t sizes[] = { 1, 8, 48, 200, 1000, 4000, 9000, 40000, 70000, 300000, 2*MiB, 5*MiB, 20*MiB, 40*MiB };
+    std::vector<uint8_t*> ps;
+    for (size_t n : sizes) { for (int rep = 0; rep < (n < 70000 ? 20 : 1); rep++) { uint8_t* p = (uint8_t*)launder(n % 3 == 0 ? mi_zalloc(n) : mi_malloc(n)); if (!p) fail_now("recover-null", "op#%ld after the OS grants requests again mi_malloc(%zu) still returns NULL", opi, n);
+        check_disjoint(p, mi_usable_size(p), -1, "recover"); p[0] = 0x11; p[n - 1] = 0x22; ps.push_back(p); } }
+    { uint8_t* p = (uint8_t*)launder(mi_malloc_aligned(1000, 64*MiB)); if (!p) fail_now("recover-null", "op#%ld aligned allocation fails after recovery", opi); p[0] = 1; ps.push_back(p); }
+    mi_heap_t* h = mi_heap_new(); if (!h) fail_now("recover-heap", "op#%ld mi_heap_new fails after recovery", opi);
+    for (int i = 0; i < 50; i++) { void* p = mi_heap_malloc(h, 100 + (size_t)i * 37); if (!p) fail_now("recover-null", "op#%ld heap allocation fails after recovery", opi); memset(p, 0x33, 100); }
+    mi_heap_destroy(h);
+    { ThreadJob j; j.is_alloc = true; j.n = 5000; j.k = 10; j.f = "malloc"; run_thread(j); for (void* p : j.ptrs) { if (!p) fail_now("recover-thread", "op#%ld allocation in a fresh thread fails after recovery", opi); ((uint8_t*)p)[4999] = 1; mi_free(p); } }
+    for (uint8_t* p : ps) mi_free(p);
+    verify_all("after-recover", false);
+    return;
+  }
+  if (nm == "quiesce") {
+    for (int s = 0; s < NSLOTS; s++) if (m.slots[s].live) { Blk& b = m.slots[s]; if (b.stranded) continue; verify_blk(s, "quiesce"); uint8_t* p = b.p; model_remove(s, false); mi_free(p); }
+    for (int h = 2; h < NHEAPS; h++) if (m.heaps[h].alive) { mi_heap_delete(m.heaps[h].h); m.heaps[h].alive = false; if (m.def == h) m.def = 1; }
+    mi_collect(true); vf_clock_advance(500); mi_collect(true);
+    AreaStat st = area_stats(); if (st.used_blocks != 0) fail_now("quiesce-used", "op#%ld after free-all and a forced collect the heap still reports %zu used blocks", opi, st.used_blocks);
+    Footprint f = measure_footprint();
+    // regions whose munmap the shim itself refused are expected to remain
+    size_t excuse = 0; { static vf_region_t regs[8192]; size_t n = vf_regions(regs, 8192); for (size_t i = 0; i < n; i++) for (auto& ru : refused_unmaps) if (regs[i].addr < ru.first + ru.second && ru.first < regs[i].addr + regs[i].len && regs[i].len > 64*KiB) { excuse++; break; } }
+    if (f.big_outside > excuse) fail_now("not-given-back", "op#%ld after recovery, free-all and a forced collect %zu non-arena region(s) are still mapped (%zu explained by refused munmap), first [%p,+%zu)", opi, f.big_outside, excuse, (void*)f.first_big, f.first_big_len);
+    return;
+  }
+}
+
+static Case gen_c07_workload(Chooser& ch) {
+  Case c;
+  switch (ch.pick(6)) { case 0: case 1: break;
+    case 2: c.push_back(Op("opt").s("name", "arena_eager_commit").u("v", 0)); c.push_back(Op("opt").s("name", "eager_commit").u("v", 0)); c.push_back(Op("opt").s("name", "eager_commit_delay").u("v", 0)); break;
+    case 3: c.push_back(Op("opt").s("name", "purge_delay").u("v", 0)); if (ch.chance(1, 2)) c.push_back(Op("opt").s("name", "arena_eager_commit").u("v", 0)); break;
+    case 4: c.push_back(Op("opt").s("name", "disallow_arena_alloc").u("v", 1)); break;
+    default: c.push_back(Op("opt").s("name", "arena_reserve").u("v", 64*1024)); break; }
+  c.push_back(Op("fault"));   // placeholder, filled in by the enumerator
+  Profile pf; pf.min_ops = 8; pf.max_ops = 36; pf.w_visit = 1; pf.w_heap = 4; pf.w_talloc = 3; pf.w_tfree = 2; pf.w_collect = 4; pf.w_tick = 2; pf.p_aligned = 20; pf.arenas = false;
+  unsigned shape = (unsigned)ch.pick(6);
+  if (shape == 0) { pf.big_ok = false; } else if (shape == 1) { pf.w_fill = 10; pf.big_ok = false; } else if (shape == 2) { pf.p_aligned = 40; } else if (shape == 3) { pf.w_heap = 14; pf.p_heap_api = 60; pf.big_ok = false; } else if (shape == 4) { pf.w_talloc = 10; pf.w_tfree = 6; }
+  Gen g(ch, pf);
+  if (shape == 2) { for (int i = 0; i < 2; i++) { int s = g.new_slot(); g.out.push_back(Op("alloc").u("s", (uint64_t)s).s("f", i ? "malloc_aligned" : "malloc").u("n", (size_t)ch.range(17*MiB, 50*MiB)).u("a", i ? (size_t)1 << ch.range(22, 26) : 16).u("nt", 1)); g.note_alloc(s, 0, 1, 0, false, 1); } }
+  if (shape == 5) { g.out.push_back(Op("arena").u("i", 0).u("size", 128*MiB).u("commit", 0).u("excl", 1)); g.arena_valid[0] = true; g.out.push_back(Op("hnew").u("h", 2).s("kind", "arena").u("ar", 0)); g.heaps[2].alive = true; g.heaps[2].arena = 0; g.pf.p_heap_api = 70; }
+  Case body = g.history(); for (auto& op : body) c.push_back(op);
+  c.push_back(Op("recover")); c.push_back(Op("quiesce"));
+  return c;
+}
+
+// ---------------------------------------------------------------- C11: give-back at quiescence, no creep over repetitions
 static void c11_event(int kind, void*, size_t, int, int) { if (g_exec) g_exec->count(C_OSCALLS); (void)kind; }
 
 static Case gen_c11(Chooser& ch) {
@@ -213,6 +282,7 @@ static void exec_c11(const Case& c, Exec& ex) {
 static bool generate_special(const std::string& mode, Chooser& ch, uint64_t, Case& out) {
   if (mode == "C11") { out = gen_c11(ch); return true; }
   if (mode == "C18") { out = gen_c18(ch); return true; }
+  if (mode == "C07") { out = gen_c07_workload(ch); return true; }   // the fault position is filled in by HistHarness::generate
   return false;
 }
 static bool execute_special(const std::string& mode, const Case& c, Exec& ex) {
